@@ -125,6 +125,8 @@ def run(tier, seed):
     # header functions: correspondence + oracle
     a = vlib.pmap(impl.mtype, inputs)
     b = vlib.pmap(impl.minfo, inputs)
+    chk.again('get_message_type(text)', impl.mtype, inputs, a, 600)
+    chk.again('get_message_info(text)', impl.minfo, inputs, b, 600)
     lines = ['MTYPE ' + vlib.hexs(t) for t in inputs] + ['MINFO ' + vlib.hexs(t) for t in inputs]
     mo = vlib.run_driver(lines)
     chk.correspond('get_message_type vs Hl7.Msg.getMessageType', inputs, a, mo[:len(inputs)], show=lambda t: {'text': t})
@@ -146,6 +148,7 @@ def run(tier, seed):
         fg = rng.random() < .6
         jobs.append((t, strict, fg))
     full = vlib.pmap(impl.msg_full, jobs)
+    chk.again('parse_message(text, level, find_groups); to_er7(); validate(return_errors=True)', impl.msg_full, jobs, full, 300)
     mlines = ['MSG %s T 2.5 %d %s' % ('S' if st else 'T', 1 if fg else 0, vlib.hexs(t)) for t, st, fg in jobs]
     mo2 = vlib.run_driver(mlines)
     chk.correspond('parse_message(...).to_er7() vs Hl7.Msg.parseMessage/encMessage', jobs, [f[0] for f in full], mo2,
